@@ -39,6 +39,9 @@ type Action struct {
 	Src     int  `json:"src,omitempty"`
 	Answers int  `json:"ans,omitempty"` // id of the datagram this one answers (0 = none)
 	Dup     bool `json:"dup,omitempty"`
+	// EmitStep is the step during which the delivered datagram was emitted (stable
+	// between a run and its replay, unlike datagram ids)
+	EmitStep int `json:"es,omitempty"`
 }
 
 func (a Action) String() string {
@@ -516,7 +519,7 @@ func (s *Sim) Deliver(i int, dup bool) {
 	if d.Step < s.Step-1 {
 		s.Stats["delayed_deliveries"]++
 	}
-	s.Apply(Action{Kind: "deliver", Node: d.Dst, Bytes: d.Bytes, DgID: d.ID, Src: d.Src, Answers: d.Answers, Dup: dup})
+	s.Apply(Action{Kind: "deliver", Node: d.Dst, Bytes: d.Bytes, DgID: d.ID, Src: d.Src, Answers: d.Answers, Dup: dup, EmitStep: d.Step})
 }
 
 func (s *Sim) Drop(i int) {
